@@ -29,6 +29,8 @@ def parseOp (ws : List String) : Option Op :=
   | ["del", n, i] => do pure (Op.del (← n.toNat?) (← i.toNat?))
   | ["rml", n, c, l] => do pure (Op.rml (← n.toNat?) (← pCase c) (← pStr l))
   | ["dl", n, c, l] => do pure (Op.dl (← n.toNat?) (← pCase c) (← pStr l))
+  | ["rmlf", n, c, l, b] => do pure (Op.rmlf (← n.toNat?) (← pCase c) (← pStr l) (← pBool b))
+  | ["dlf", n, c, l, b] => do pure (Op.dlf (← n.toNat?) (← pCase c) (← pStr l) (← pBool b))
   | ["sort", n, b] => do pure (Op.sort (← n.toNat?) (← pBool b))
   | ["rev", n] => do pure (Op.rev (← n.toNat?))
   | ["clear", n] => do pure (Op.clear (← n.toNat?))
@@ -65,7 +67,7 @@ def commaNats (l : List Nat) : String := ",".intercalate (l.map toString)
 
 def showErr : Err → String
   | .immutable => "Immutable" | .valueError => "ValueError" | .lookupError => "LookupError"
-  | .keyError => "KeyError" | .indexError => "IndexError"
+  | .keyError => "KeyError" | .indexError => "IndexError" | .typeError => "TypeError"
 
 def showOut : Out → String
   | .ok => "ok"
